@@ -16,7 +16,7 @@ from .. import harness, rt, world, zoo
 from ..harness import fork_call, run_op
 
 LEVEL = "exploration"
-RUNS = {"quick": 3000, "thorough": 50000}
+RUNS = {"quick": 1500, "thorough": 30000}
 WALL = {"quick": 150, "thorough": 1500}
 RULE = (
     "part a: one run = one seeded file-system world (<= 16 objects with mode bits, FIFOs, symlinks, dangling links) x up to "
